@@ -277,10 +277,10 @@ SCENARIOS = dict(
                        'ring_split_net', 'const', 'nuisance3_net', 'funnel_net', 'g5', 'net2_tanh',
                        'long_b5:resume1', 'enlarge25:resume']),
     C10=dict(quick=['gauss_s', 'b7_update', 'half', 'gauss_d', 'nlb', 'const:slices+resume',
-                    'cross_split:resume', 'obj_vec:resume+slices', 'dictfn_vec_net:resume'],
+                    'cross_split:resume', 'obj_vec:resume+slices', 'dictfn_vec_net:resume', 'corr:resume'],
              thorough=['gauss', 'gauss_s', 'gauss_d', 'b7_update', 'half', 'b1', 'two', 'wrap_net',
                        'blob_int_vec', 'pool_l3', 'cross_split', 'vec_pool', 'wrap_pool_s', 'g5', 'obj_vec',
-                       'dictfn_vec_net', 'blob_struct_dictfn']),
+                       'dictfn_vec_net', 'blob_struct_dictfn', 'corr']),
     C11=dict(quick=['gauss_s', 'blob_array_pool', 'wrap_net', 'pool_l3', 'nuisance', 'vec_pool'],
              thorough=['gauss', 'gauss_s', 'gauss_net', 'blob_array_pool', 'pool_l3', 'wrap_net',
                        'two', 'nofile', 'blob_two_obj', 'nuisance', 'nuisance3_net', 'half', 'g3_pool_s',
